@@ -192,6 +192,7 @@ class Outcomes:
         self.cfg: CFG = cfg_of(model, func)
         self.nz = Normalizer(model, func, self.cfg, param_map=param_map, inline_unique_methods=inline_unique_methods)
         self.out: t.List[Outcome] = []
+        self._assigned: t.Dict[str, t.List[t.Tuple[t.Any, ast.AST]]] = {}
         if not isinstance(func.node, (ast.FunctionDef, ast.Lambda)):
             raise AnalysisError(f"{func.loc()}: not a plain function")
         body = func.node.body if isinstance(func.node, ast.FunctionDef) else [ast.Return(value=func.node.body)]
@@ -237,7 +238,13 @@ class Outcomes:
                 cur = FALSE
             elif isinstance(st, ast.For):
                 cur = self._loop(st, cur, out)
-            elif isinstance(st, (ast.Assign, ast.AnnAssign, ast.AugAssign, ast.Pass, ast.Expr, ast.Assert, ast.Import, ast.ImportFrom,
+            elif isinstance(st, (ast.Assign, ast.AnnAssign)):
+                # `result = <expr>` under the current path condition (read back by `return result`)
+                tg = st.targets[0] if isinstance(st, ast.Assign) and len(st.targets) == 1 else (st.target if isinstance(st, ast.AnnAssign) else None)
+                if isinstance(tg, ast.Name) and st.value is not None:
+                    self._assigned.setdefault(tg.id, []).append((cur, st.value))
+                continue
+            elif isinstance(st, (ast.AugAssign, ast.Pass, ast.Expr, ast.Assert, ast.Import, ast.ImportFrom,
                                  ast.FunctionDef, ast.Global, ast.Nonlocal)):
                 continue       # locals are resolved by the normaliser (reaching definitions)
             else:
@@ -307,6 +314,15 @@ class Outcomes:
             if len(defs) == 1 and defs[0].kind == 'assign' and defs[0].value is not None and not defs[0].path:
                 self._value(t.cast(ast.expr, defs[0].value), cond, out, st)
                 return
+            hist = self._assigned.get(v.id, [])
+            if len(defs) > 1 and len(hist) == len(defs) and all(d.kind == 'assign' and not d.path for d in defs) and not self._in_loop(st):
+                # one `return result` for a variable assigned in several arms: each assignment holds under its own path
+                # condition, unless a later assignment (in program order) also ran
+                later: t.Any = FALSE
+                for (c_i, e_i) in reversed(hist):
+                    self._value(t.cast(ast.expr, e_i), f_and(cond, c_i, f_not(later)), out, st)
+                    later = f_or(later, c_i)
+                return
             out.append(Outcome('return', form, cond, st))
             return
         if self._is_boolean(v):
@@ -315,6 +331,14 @@ class Outcomes:
             out.append(Outcome('return', 'False', f_and(cond, f_not(f)), st))
             return
         out.append(Outcome('return', self.nz.expr(v, self._node(v)), cond, st))
+
+    def _in_loop(self, st: ast.AST) -> bool:
+        p = getattr(st, '_parent', None)
+        while p is not None and p is not self.func.node:
+            if isinstance(p, (ast.For, ast.While)):
+                return True
+            p = getattr(p, '_parent', None)
+        return False
 
     def _strip(self, v: ast.expr) -> ast.expr:
         while True:
@@ -350,6 +374,9 @@ class Outcomes:
             return f_and(*parts)
         if isinstance(test, ast.Call) and isinstance(test.func, ast.Name) and test.func.id in ('all', 'any') and len(test.args) == 1:
             q = self._quantified(test.func.id, test.args[0], test, bound)
+            if q is not None:
+                return q
+            q = self._quantified_via_helper(test.func.id, test.args[0], test, bound)
             if q is not None:
                 return q
         if isinstance(test, ast.Name) and test.id not in bound:
@@ -398,6 +425,39 @@ class Outcomes:
         if which == 'all':
             return f_not(exists(f_and(filt, f_not(elt))))
         return exists(f_and(filt, elt))
+
+    def _quantified_via_helper(self, which: str, arg: ast.expr, where: ast.expr, bound: t.Dict[str, str]) -> t.Optional[t.Any]:
+        """``all(helper(a, b))`` where ``helper`` (a function of the package or a closure of an enclosing function) is one
+        ``return <generator expression>``: the quantified formula of that generator, with the helper's parameters named by the
+        caller's arguments."""
+        while isinstance(arg, ast.Call) and isinstance(arg.func, ast.Name) and arg.func.id in ('tuple', 'list', 'iter') and len(arg.args) == 1:
+            arg = arg.args[0]
+        if not isinstance(arg, ast.Call) or arg.keywords or any(isinstance(a, ast.Starred) for a in arg.args) or self._depth >= 3:
+            return None
+        g: t.Optional[FuncInfo] = None
+        if isinstance(arg.func, ast.Name):
+            scope_: t.Optional[FuncInfo] = self.func if isinstance(self.func.node, ast.FunctionDef) else None
+            while scope_ is not None and g is None:
+                g = self.model.functions.get(f"{scope_.qualname}.{arg.func.id}")
+                scope_ = scope_.parent
+        if g is None:
+            q = self.model.resolve(arg.func, self.func.module, self.func if isinstance(self.func.node, ast.FunctionDef) else None)
+            g = self.model.functions.get(q or '')
+        if g is None or g is self.func or not isinstance(g.node, ast.FunctionDef) or len(g.params) != len(arg.args):
+            return None
+        body = [s_ for s_ in g.node.body if not (isinstance(s_, ast.Expr) and isinstance(s_.value, ast.Constant))]
+        if len(body) != 1 or not isinstance(body[0], ast.Return) or not isinstance(body[0].value, (ast.GeneratorExp, ast.ListComp)):
+            return None
+        n = self._node(where) if self.cfg.node_of(where) is not None else self._anchor
+        if n is None:
+            return None
+        pm = dict(self.nz.param_map)
+        pm.update({p_: self.nz.expr(a, n, bound) for p_, a in zip(g.params, arg.args)})
+        try:
+            sub = Outcomes(self.model, g, pm, atom_map=self.atom_map, _depth=self._depth + 1)
+        except AnalysisError:
+            return None
+        return sub._quantified(which, body[0].value, body[0].value, {})
 
     # ------------------------------------------------------------------ queries
 
